@@ -3,6 +3,9 @@
 
    (state recorded for an upstream that was removed from the lister is outside the live clause: the
     unknown-condition pass deletes such an upstream as a whole)
+   Conditions are read from the API (persisted state: it survives the replica losing and regaining
+   leadership); counted in-flight lives in the leader's memory and is legitimately lost by StopLeading.
+   Clean-up passes only count for the reclaimed clause when they run on the leader.
    live      : at every step, recorded state (conditions with their quota, counted in-flight) of an
                instance whose last heartbeat is less than 3 s old is still there afterwards (unless
                the step is that instance's own report / acquire, which replaces it)
@@ -26,6 +29,7 @@ Record obs := mkObs {
   osumc : list (string * Z);              (* recorded sum of the global-count item, per upstream *)
   ocnts2 : list (string * fcst);          (* the second global-count flow control of every upstream (same acquires) *)
   oother : Z;                             (* instance entries on flow controls nobody acquires on (expected 0) *)
+  opers : list (key * cnd);               (* the conditions persisted in the API (whether or not the replica leads) *)
 }.
 
 Record ctx := mkCtx {
@@ -36,6 +40,7 @@ Record ctx := mkCtx {
   cs_lab : list string;                   (* ... no condition carrying their label *)
   cs_all : list string;                   (* ... no condition at all *)
   clisted : list string;                  (* upstreams in the lister, from the ops *)
+  cleading : bool;                        (* the replica leads the shard, from the ops *)
   cprev : obs;
 }.
 
@@ -61,18 +66,18 @@ Definition live_cnt_ok (c : ctx) (t : Z) (o : op) (before after : list (string *
                           end
                         else true) (fst (snd q))) before.
 
-Definition live_ok (c : ctx) (t : Z) (o : op) (b : obs) : bool :=
+Definition live_ok (c : ctx) (t : Z) (o : op) (keepcnt : bool) (b : obs) : bool :=
   (forallb (fun p : key * cnd =>
               let u := fst (fst p) in let i := snd (fst p) in
               if (is_live c t i && str_mem u (clisted c))%bool then
                 match o with
                 | Report u' i' _ => if (String.eqb u u' && String.eqb i i')%bool then true
-                                    else opt_eqb cnd_eqb (alookup key_eqb (u, i) (oconds b)) (Some (snd p))
-                | _ => opt_eqb cnd_eqb (alookup key_eqb (u, i) (oconds b)) (Some (snd p))
+                                    else opt_eqb cnd_eqb (alookup key_eqb (u, i) (opers b)) (Some (snd p))
+                | _ => opt_eqb cnd_eqb (alookup key_eqb (u, i) (opers b)) (Some (snd p))
                 end
-              else true) (oconds (cprev c))
-   && live_cnt_ok c t o (ocnts (cprev c)) (ocnts b)
-   && live_cnt_ok c t o (ocnts2 (cprev c)) (ocnts2 b))%bool.
+              else true) (opers (cprev c))
+   && (negb keepcnt
+       || (live_cnt_ok c t o (ocnts (cprev c)) (ocnts b) && live_cnt_ok c t o (ocnts2 (cprev c)) (ocnts2 b))))%bool.
 
 (* no in-flight counted for the instance on ANY flow control *)
 Definition no_count (i : string) (b : obs) : bool :=
@@ -87,9 +92,9 @@ Definition reclaimed_ok (scnt slab sall : list string) (b : obs) : bool :=
   (forallb (fun i => no_count i b) scnt
    && forallb (fun i => forallb (fun p : key * cnd =>
                                    negb (String.eqb (snd (fst p)) i && String.eqb (snd (snd p)) i
-                                         && negb (String.eqb i EmptyString))) (oconds b)) slab
+                                         && negb (String.eqb i EmptyString))) (opers b)) slab
    && forallb (fun i => forallb (fun p : key * cnd =>
-                                   negb (String.eqb (snd (fst p)) i && negb (String.eqb i EmptyString))) (oconds b)) sall)%bool.
+                                   negb (String.eqb (snd (fst p)) i && negb (String.eqb i EmptyString))) (opers b)) sall)%bool.
 
 Definition capacity_ok (o : op) (b : obs) : bool :=
   match o with
@@ -110,7 +115,10 @@ Definition add (i : string) (l : list string) : list string := if str_mem i l th
 Definition strip (o : op) (l : list string) : list string :=
   match actor o with Some i => remove i l | None => l end.
 
-Definition next_ctx (c : ctx) (o : op) (b : obs) : ctx :=
+Definition base (so : sop) : op := match so with Op o => o | _ => Advance 0 end.
+
+Definition next_ctx (c : ctx) (so : sop) (b : obs) : ctx :=
+  let o := base so in
   let t := match o with Advance dt => cnow c + dt | _ => cnow c end in
   let hb' := match o with Heartbeat i => aset String.eqb i (cnow c) (chb c) | _ => chb c end in
   let act' := match actor o with Some i => aset String.eqb i (cnow c) (cact c) | None => cact c end in
@@ -121,9 +129,11 @@ Definition next_ctx (c : ctx) (o : op) (b : obs) : ctx :=
                | _ => []
                end in
   let scnt := fold_left (fun acc i => add i acc) timed (strip o (cs_cnt c)) in
-  let slab := fold_left (fun acc i => add i acc) (filter (fun i => str_mem i (oclients p)) timed) (strip o (cs_lab c)) in
+  let slab := fold_left (fun acc i => add i acc)
+                        (filter (fun i => (cleading c && str_mem i (oclients p))%bool) timed) (strip o (cs_lab c)) in
   let sall := match o with
-              | TickUnknown => fold_left (fun acc i => add i acc) (strip o (cs_cnt c)) (strip o (cs_all c))
+              | TickUnknown => if cleading c then fold_left (fun acc i => add i acc) (strip o (cs_cnt c)) (strip o (cs_all c))
+                               else strip o (cs_all c)
               | _ => strip o (cs_all c)
               end in
   let lst := match o with
@@ -131,21 +141,24 @@ Definition next_ctx (c : ctx) (o : op) (b : obs) : ctx :=
              | ClusterSet u => if str_mem u (clisted c) then clisted c else u :: clisted c
              | _ => clisted c
              end in
-  mkCtx t hb' act' scnt slab sall lst b.
+  let ld := match so with StopLeading => false | StartLeading => true | _ => cleading c end in
+  mkCtx t hb' act' scnt slab sall lst ld b.
 
 (* clause layout: live, reclaimed, capacity *)
-Definition step_ok (c : ctx) (o : op) (b : obs) : list bool :=
-  let c' := next_ctx c o b in
-  [ live_ok c (cnow c') o b; reclaimed_ok (cs_cnt c') (cs_lab c') (cs_all c') b; capacity_ok o b ].
+Definition step_ok (c : ctx) (so : sop) (b : obs) : list bool :=
+  let c' := next_ctx c so b in
+  [ live_ok c (cnow c') (base so) (match so with StopLeading => false | _ => true end) b;
+    reclaimed_ok (cs_cnt c') (cs_lab c') (cs_all c') b;
+    capacity_ok (base so) b ].
 
 Definition and_lists (a b : list bool) : list bool := map (fun p => (fst p && snd p)%bool) (combine a b).
 
-Fixpoint hist_go (c : ctx) (l : list (op * obs)) : list bool :=
+Fixpoint hist_go (c : ctx) (l : list (sop * obs)) : list bool :=
   match l with
   | [] => [true; true; true]
   | (o, b) :: r => and_lists (step_ok c o b) (hist_go (next_ctx c o b) r)
   end.
 
-Definition obs0 (u : list string) : obs := mkObs RNil [] [] [] (map (fun x => (x, ([], 0))) u) [] [] (map (fun x => (x, ([], 0))) u) 0.
-Definition hist_ok (u : list string) (l : list (op * obs)) : list bool :=
-  hist_go (mkCtx 0 [] [] [] [] [] u (obs0 u)) l.
+Definition obs0 (u : list string) : obs := mkObs RNil [] [] [] (map (fun x => (x, ([], 0))) u) [] [] (map (fun x => (x, ([], 0))) u) 0 [].
+Definition hist_ok (u : list string) (l : list (sop * obs)) : list bool :=
+  hist_go (mkCtx 0 [] [] [] [] [] u true (obs0 u)) l.
